@@ -98,6 +98,26 @@ def run(rep, tier, rng):
                         add(f"check_similarity_norm {c.zmat(vecs)} {c.zmat(dv)} {T} {sobs(os_, algs.enc_mat)}", dict(base, op="similarity-tiny-magnitude", obs=repr(os_)[:200]),
                             ("sim-tiny", fn, dn, n, zero_row, tuple(map(tuple, vecs)), tuple(map(tuple, dv))), nontrivial=n >= 2)
 
+                # 32-bit data (e.g. probe data of a 32-bit simulation) and 32-bit vocabulary arrays: zero vectors still give 0, never NaN
+                if n and fn in ("ndarray", "list-of-arrays") and dn in ("(d,)", "(T,d)"):
+                    data32 = np.asarray(data, dtype=np.float32)
+                    voc32 = np.asarray(fv, dtype=np.float32) if fn == "ndarray" else [np.asarray(x_, dtype=np.float32) for x_ in fv]
+                    for which, dd_, vv_ in (("float32 data", data32, fv), ("float32 data and vocabulary", data32, voc32)):
+                        o32 = c.observe(lambda: similarity(dd_, vv_, normalize=norm))
+                        T32 = "(1%Z, 100000%Z)"
+                        b32 = dict(base, op="similarity-" + which.replace(" ", "-"), obs=repr(o32)[:200])
+                        if single:
+                            add(f"{'check_similarity_norm1' if norm else 'check_similarity1'} {c.zmat(vecs)} {c.zlist(dv[0])} {T32} {sobs(o32, algs.enc_vec)}", b32,
+                                ("sim32", which, fn, dn, norm, n, zero_row, tuple(map(tuple, vecs)), tuple(dv[0])), nontrivial=n >= 2)
+                        else:
+                            add(f"{'check_similarity_norm' if norm else 'check_similarity'} {c.zmat(vecs)} {c.zmat(dv)} {T32} {sobs(o32, algs.enc_mat)}", b32,
+                                ("sim32", which, fn, dn, norm, n, zero_row, tuple(map(tuple, vecs)), tuple(map(tuple, dv))), nontrivial=n >= 2)
+                        if o32[0] == "ok" and np.isnan(np.asarray(o32[1], dtype=float)).any():
+                            rep.violation(f"similarity returned NaN for {which}", {"case": {k_: v_ for k_, v_ in b32.items() if k_ != "obs"},
+                                          "python": "import numpy as np\nfrom nengo_spa.examine import similarity\n"
+                                                    f"r = similarity(np.array({dv if not single else dv[0]!r}, dtype=np.float32), np.array({vecs!r}, dtype=np.float32), normalize={norm})\n"
+                                                    "assert not np.isnan(r).any(), r\n"})
+
     # ---------------- text -----------------------------------------------------------------
     a = 2  # vectors are multiples of 1/4
     k = 2 * a
